@@ -164,3 +164,250 @@ Proof.
       rewrite Rp, <- (view_tl_pop m1 Hpos), Em2. exact Rc.
     + intros d Ld Hm. apply (Rd d (L1 d Ld)), (Rb d Ld Hm).
 Qed.
+
+(* ---- helpers for the contiguous fast path ---- *)
+Lemma run_pops : forall k v mm, (k <= length v)%nat -> run (repeat APop k) (v, mm) = Some (skipn k v, mm).
+Proof.
+  induction k as [|k IH]; intros v mm H; [reflexivity|]. destruct v as [|x t]; [simpl in H; lia|].
+  simpl. apply IH. simpl in H. lia.
+Qed.
+
+Lemma skipn_set_nth : forall (t : list Z) q x, (q < length t)%nat -> skipn q (set_nth t q x) = x :: skipn (S q) t.
+Proof.
+  induction t as [|y t IH]; intros q x H; [simpl in H; lia|]. destruct q as [|q]; [reflexivity|].
+  simpl. apply IH. simpl in H. lia.
+Qed.
+
+Lemma insert_z_perm : forall k l, Permutation (insert_z k l) (k :: l).
+Proof.
+  induction l as [|y r IH]; simpl; [apply Permutation_refl|]. destruct (k <? y); [apply Permutation_refl|].
+  eapply perm_trans; [apply perm_skip; exact IH|]. apply perm_swap.
+Qed.
+Lemma sort_z_perm_gen : forall l acc, Permutation (fold_left (fun acc k => insert_z k acc) l acc) (l ++ acc).
+Proof.
+  induction l as [|k r IH]; intros acc; simpl; [apply Permutation_refl|].
+  eapply perm_trans; [apply IH|]. eapply perm_trans; [apply Permutation_app_head; apply insert_z_perm|].
+  apply Permutation_sym. apply Permutation_middle.
+Qed.
+Lemma sort_z_perm : forall l, Permutation (sort_z l) l.
+Proof. intros. unfold sort_z. eapply perm_trans; [apply sort_z_perm_gen|]. rewrite app_nil_r. apply Permutation_refl. Qed.
+
+Lemma fold_min_spec : forall l a, fold_left Z.min l a <= a /\ (forall x, In x l -> fold_left Z.min l a <= x) /\
+  (fold_left Z.min l a = a \/ In (fold_left Z.min l a) l).
+Proof.
+  induction l as [|y r IH]; intros a; simpl; [split; [lia|]; split; [intros x []|left; reflexivity]|].
+  destruct (IH (Z.min a y)) as [H1 [H2 H3]]. split; [lia|]. split.
+  - intros x [E|Hx]; [subst; lia|apply H2; exact Hx].
+  - destruct H3 as [H3|H3]; [|right; right; exact H3].
+    destruct (Z.min_spec a y) as [[_ E]|[_ E]]; [left; rewrite H3; exact E|right; left; rewrite H3, E; reflexivity].
+Qed.
+
+Lemma depths_of_spec : forall m xs, (forall x, In x xs -> In x m) ->
+  length (depths_of m xs) = length xs /\
+  forall dp, In dp (depths_of m xs) <-> exists x, In x xs /\ spec_get_depth m x = Some dp.
+Proof.
+  induction xs as [|x r IH]; intros H; simpl.
+  - split; [reflexivity|]. intros dp. split; [intros []|intros [x [[] _]]].
+  - destruct (IH (fun y Hy => H y (or_intror Hy))) as [L I].
+    destruct (spec_get_depth m x) as [d|] eqn:G.
+    + simpl. split; [lia|]. intros dp. split.
+      * intros [E|Hd]; [subst; exists x; split; [left; reflexivity|exact G]|].
+        apply I in Hd. destruct Hd as [y [Hy Gy]]. exists y. split; [right; exact Hy|exact Gy].
+      * intros [y [[E|Hy] Gy]]; [subst; left; congruence|right; apply I; exists y; split; assumption].
+    + exfalso. apply (proj2 (get_depth_spec m x)) in G. apply G. apply H. left. reflexivity.
+Qed.
+
+Lemma in_expected : forall deepest dp,
+  In dp (map (fun i => deepest + Z.of_nat i) (seq 0 (Z.to_nat (- deepest)))) <-> deepest <= dp < 0.
+Proof.
+  intros deepest dp. rewrite in_map_iff. split.
+  - intros [i [E Hi]]. apply in_seq in Hi. lia.
+  - intros H. exists (Z.to_nat (dp - deepest)). split; [lia|]. apply in_seq. lia.
+Qed.
+
+Lemma in_skipn : forall (l : list Z) n x, In x (skipn n l) -> In x l.
+Proof. intros l n x H. rewrite <- (firstn_skipn n l). apply in_or_app. right. exact H. Qed.
+Lemma nodup_skipn : forall (l : list Z) n, NoDup l -> NoDup (skipn n l).
+Proof.
+  induction l as [|y t IH]; intros n H; destruct n; simpl; auto. inversion H; subst. apply IH. assumption.
+Qed.
+
+Lemma present_iff : forall m x, negb (opt_is_none (spec_get_depth m x)) = true <-> In x m.
+Proof.
+  intros m x. destruct (spec_get_depth m x) eqn:G; simpl.
+  - split; [intros _|reflexivity]. destruct (in_dec Z.eq_dec x m) as [H|H]; [exact H|].
+    apply (proj2 (get_depth_spec m x)) in H. congruence.
+  - split; [discriminate|]. intros H. apply (proj2 (get_depth_spec m x)) in G. contradiction.
+Qed.
+
+(* the part of popmany after the filter *)
+Definition popmany_body (present : list Z) (a : list ainstr) (m : list Z) (s : sp) : res (list ainstr * list Z * sp) :=
+  let depths := depths_of m present in
+  let deepest := fold_left Z.min depths 0 in
+  let expected := map (fun i => deepest + Z.of_nat i) (seq 0 (Z.to_nat (- deepest))) in
+  if (deepest <? 0) && (- deepest <=? 16) && (if list_eq_dec Z.eq_dec (sort_z depths) expected then true else false) then
+    match sp_swap false deepest a m s with
+    | Err e => Err e
+    | Ok (a1, m1, s1, _) => let n := zlen present in Ok (a1 ++ repeat APop (Z.to_nat n), st_pop m1 n, s1)
+    end
+  else
+    let keyed := fold_left (fun acc x => match spec_get_depth m x with Some dp => insert_by (- dp) x acc | None => acc end) present [] in
+    pop_each (map snd keyed) a m s.
+Lemma popmany_unfold : forall to_pop a m s,
+  popmany to_pop a m s =
+  match filter (fun x => negb (opt_is_none (spec_get_depth m x))) to_pop with
+  | [] => Ok (a, m, s)
+  | p => popmany_body p a m s
+  end.
+Proof. intros. unfold popmany, popmany_body. destruct (filter _ to_pop); reflexivity. Qed.
+
+Lemma keyed_perm : forall m xs acc, (forall x, In x xs -> In x m) ->
+  Permutation (map snd (fold_left (fun acc x => match spec_get_depth m x with Some dp => insert_by (- dp) x acc | None => acc end) xs acc))
+              (xs ++ map snd acc).
+Proof.
+  induction xs as [|x r IH]; intros acc H; simpl; [apply Permutation_refl|].
+  destruct (spec_get_depth m x) as [dp|] eqn:G.
+  - eapply perm_trans; [apply IH; intros y Hy; apply H; right; exact Hy|].
+    assert (P : forall k l, Permutation (map snd (insert_by k x l)) (x :: map snd l)).
+    { intros k. induction l as [|[k' y] l IHl]; simpl; [apply Permutation_refl|].
+      destruct (k <? k'); simpl; [apply Permutation_refl|].
+      eapply perm_trans; [apply perm_skip; exact IHl|]. apply perm_swap. }
+    eapply perm_trans; [apply Permutation_app_head; apply P|]. apply Permutation_sym. apply Permutation_middle.
+  - exfalso. apply (proj2 (get_depth_spec m x)) in G. apply G, H. left. reflexivity.
+Qed.
+
+Lemma popmany_body_spec : forall present a low high s,
+  sp_inv s -> NoDup high -> NoDup present -> present <> [] -> (forall x, In x present -> In x high) ->
+  exists new high' s',
+    popmany_body present a (low ++ high) s = Ok (a ++ new, low ++ high', s') /\
+    forallb depth_ok new = true /\ sp_inv s' /\ (forall d, live_inv s d -> live_inv s' d) /\
+    NoDup high' /\ (forall y, In y high' <-> In y high /\ ~ In y present) /\
+    forall mm, exists mm', run new (view (low ++ high), mm) = Some (view (low ++ high'), mm') /\
+                           forall d, live_inv s d -> mem_ok mm d -> mem_ok mm' d.
+Proof.
+  intros present a low high s Hi Hnd Hnp Hne Hin. unfold popmany_body.
+  set (m := low ++ high).
+  assert (Hinm : forall x, In x present -> In x m) by (intros x Hx; unfold m; apply in_or_app; right; apply Hin; exact Hx).
+  destruct (depths_of_spec m present Hinm) as [Ld Id].
+  set (depths := depths_of m present) in *.
+  set (deepest := fold_left Z.min depths 0).
+  set (expected := map (fun i => deepest + Z.of_nat i) (seq 0 (Z.to_nat (- deepest)))).
+  destruct ((deepest <? 0) && (- deepest <=? 16) && (if list_eq_dec Z.eq_dec (sort_z depths) expected then true else false)) eqn:C.
+  - (* contiguous fast path *)
+    apply andb_true_iff in C. destruct C as [C C3]. apply andb_true_iff in C. destruct C as [C1 C2].
+    apply Z.ltb_lt in C1. apply Z.leb_le in C2.
+    destruct (list_eq_dec Z.eq_dec (sort_z depths) expected) as [Es|]; [clear C3|discriminate].
+    assert (Pd : Permutation depths expected) by (rewrite <- Es; apply Permutation_sym, sort_z_perm).
+    set (q := Z.to_nat (- deepest)).
+    assert (Lq : length present = q).
+    { rewrite <- Ld, (Permutation_length Pd). unfold expected. rewrite map_length, seq_length. reflexivity. }
+    assert (Hq1 : (1 <= q)%nat) by (unfold q; lia).
+    (* the deepest depth is the depth of a present operand *)
+    destruct (fold_min_spec depths 0) as [_ [_ [F|F]]]; [unfold deepest in C1; lia|]. fold deepest in F.
+    apply Id in F. destruct F as [xd [Hxd Gd]].
+    destruct (depth_in_high low high xd (Hin xd Hxd)) as [dp [G [V [Pq _]]]]. fold m in G, V.
+    assert (dp = deepest) by congruence. subst dp. change (pos deepest) with q in Pq.
+    destruct (sp_swap_mem deepest a m s Hi V) as [new1 [s1 [c1 [m1 [E1 [V1 [D1 [I1 [L1 R1]]]]]]]]].
+    rewrite E1. change (pos deepest) with q in V1.
+    assert (Lm1 : length (view m1) = length m) by (rewrite V1, length_swap_view, length_view; reflexivity).
+    assert (Zn : Z.to_nat (zlen present) = q) by (unfold zlen; lia).
+    (* shape of the views *)
+    destruct (view high) as [|x0 th] eqn:Vh; [rewrite <- (length_view high), Vh in Pq; simpl in Pq; lia|].
+    assert (Lth : (q <= length th)%nat) by (rewrite <- (length_view high), Vh in Pq; simpl in Pq; lia).
+    assert (Vm : view m = x0 :: th ++ view low) by (unfold m; rewrite view_app, Vh; reflexivity).
+    assert (Vres : view (st_pop m1 (zlen present)) = (x0 :: skipn q th) ++ view low).
+    { rewrite pop_view.
+      - rewrite Zn, V1, Vm. destruct q as [|q']; [lia|].
+        unfold swap_view. simpl. rewrite skipn_set_nth by (rewrite app_length; lia).
+        rewrite skipn_app. replace (S q' - length th)%nat with 0%nat by lia. reflexivity.
+      - unfold zlen. rewrite <- (length_view m1), Lm1. unfold m. rewrite app_length. rewrite <- (length_view high), Vh. simpl. lia. }
+    set (high' := rev (x0 :: skipn q th)).
+    assert (Eres : st_pop m1 (zlen present) = low ++ high').
+    { apply view_injective. rewrite Vres, view_app. f_equal. unfold high', view. rewrite rev_involutive. reflexivity. }
+    assert (Nv : NoDup (x0 :: th)) by (rewrite <- Vh; unfold view; apply NoDup_rev; exact Hnd).
+    exists (new1 ++ repeat APop q), high', s1. rewrite Zn, Eres.
+    split; [rewrite app_assoc; reflexivity|].
+    split; [rewrite forallb_app, D1; simpl; clear; induction q; simpl; auto|].
+    split; [exact I1|]. split; [exact L1|].
+    split.
+    { unfold high'. apply NoDup_rev. inversion Nv; subst. constructor.
+      - intro Hx. apply H1. eapply in_skipn. exact Hx.
+      - apply nodup_skipn. assumption. }
+    split.
+    { intros y. unfold high'. rewrite <- in_rev. rewrite <- (in_view high), Vh.
+      (* every present operand sits at a position 1..q of the view of high *)
+      assert (Ppos : forall x, In x present -> exists p, (1 <= p <= q)%nat /\ nth p (x0 :: th) 0 = x).
+      { intros x Hx. destruct (depth_in_high low high x (Hin x Hx)) as [dp [G2 [_ [_ [N2 _]]]]]. fold m in G2.
+        assert (Hd : In dp depths) by (apply Id; exists x; split; assumption).
+        apply (Permutation_in _ Pd) in Hd. apply in_expected in Hd. exists (pos dp). rewrite Vh in N2.
+        split; [unfold pos, q; lia|exact N2]. }
+      assert (Pall : forall p, (1 <= p <= q)%nat -> In (nth p (x0 :: th) 0) present).
+      { intros p Hp. assert (Hd : In (- Z.of_nat p) expected) by (apply in_expected; unfold q in Hp; lia).
+        apply (Permutation_in _ (Permutation_sym Pd)) in Hd. apply Id in Hd. destruct Hd as [x [Hx Gx]].
+        destruct (depth_in_high low high x (Hin x Hx)) as [dp [G2 [_ [_ [N2 _]]]]]. fold m in G2.
+        assert (dp = - Z.of_nat p) by congruence. subst dp. rewrite Vh in N2. unfold pos in N2.
+        replace (Z.to_nat (- - Z.of_nat p)) with p in N2 by lia. rewrite N2. exact Hx. }
+      split.
+      - intros Hy. split; [destruct Hy as [E|Hy]; [left; exact E|right; eapply in_skipn; exact Hy]|].
+        intros Hp. destruct (Ppos y Hp) as [p [Hp1 Hp2]].
+        assert (Lp : (p < length (x0 :: th))%nat) by (simpl; lia).
+        destruct Hy as [E|Hy].
+        + subst y. assert (p = 0%nat); [|lia].
+          apply (proj1 (NoDup_nth (x0 :: th) 0) Nv); [exact Lp|simpl; lia|simpl; simpl in Hp2; exact Hp2].
+        + apply (In_nth _ _ 0) in Hy. destruct Hy as [k [Hk Ek]]. rewrite nth_skipn in Ek. rewrite skipn_length in Hk.
+          assert (p = S (q + k)); [|lia].
+          apply (proj1 (NoDup_nth (x0 :: th) 0) Nv); [exact Lp|simpl; lia|]. rewrite Hp2. simpl. symmetry. exact Ek.
+      - intros [Hy Hnp']. apply (In_nth _ _ 0) in Hy. destruct Hy as [p [Hp Ep]].
+        destruct p as [|p]; [left; simpl in Ep; exact Ep|].
+        destruct (Nat.le_gt_cases (S p) q) as [Hle|Hgt].
+        + exfalso. apply Hnp'. rewrite <- Ep. apply Pall. lia.
+        + right. simpl in Ep. simpl in Hp. rewrite <- Ep.
+          replace p with (q + (p - q))%nat by lia. rewrite <- nth_skipn. apply nth_In. rewrite skipn_length. lia. }
+    intros mm. destruct (R1 mm) as [mm1 [Ra Rb]]. exists mm1. split; [|exact Rb].
+    rewrite run_app. fold m. rewrite Ra. rewrite run_pops by (rewrite Lm1; unfold m; rewrite app_length, <- (length_view high), Vh; simpl; lia).
+    rewrite <- Eres, pop_view.
+    + rewrite Zn. reflexivity.
+    + unfold zlen. rewrite <- (length_view m1), Lm1. unfold m. rewrite app_length. rewrite <- (length_view high), Vh. simpl. lia.
+  - (* general path *)
+    clear C.
+    set (keyed := fold_left (fun acc x => match spec_get_depth m x with Some dp => insert_by (- dp) x acc | None => acc end) present []).
+    assert (Pk : Permutation (map snd keyed) present).
+    { unfold keyed. eapply perm_trans; [apply keyed_perm; exact Hinm|]. simpl. rewrite app_nil_r. apply Permutation_refl. }
+    destruct (pop_each_spec (map snd keyed) a low high s Hi Hnd) as [new [high' [s' [E [D [I [L [N [In' R]]]]]]]]].
+    { eapply Permutation_NoDup; [apply Permutation_sym; exact Pk|exact Hnp]. }
+    { intros x Hx. apply Hin. eapply Permutation_in; [exact Pk|exact Hx]. }
+    exists new, high', s'. split; [exact E|]. split; [exact D|]. split; [exact I|]. split; [exact L|]. split; [exact N|].
+    split; [|exact R]. intros y. rewrite In'. split; intros [H1 H2]; (split; [exact H1|]); intro H3; apply H2.
+    + eapply Permutation_in; [apply Permutation_sym; exact Pk|exact H3].
+    + eapply Permutation_in; [exact Pk|exact H3].
+Qed.
+
+Theorem popmany_correct_thm : forall to_pop a low high s,
+  sp_inv s -> NoDup high -> NoDup to_pop ->
+  (forall x, In x to_pop -> In x (low ++ high) -> In x high) ->
+  exists new high' s',
+    popmany to_pop a (low ++ high) s = Ok (a ++ new, low ++ high', s') /\
+    forallb depth_ok new = true /\ sp_inv s' /\ (forall d, live_inv s d -> live_inv s' d) /\
+    NoDup high' /\ (forall y, In y high' <-> In y high /\ ~ In y to_pop) /\
+    forall mm, exists mm', run new (view (low ++ high), mm) = Some (view (low ++ high'), mm') /\
+                           forall d, live_inv s d -> mem_ok mm d -> mem_ok mm' d.
+Proof.
+  intros to_pop a low high s Hi Hnd Hnt Hin. rewrite popmany_unfold.
+  set (m := low ++ high) in *.
+  set (P := filter (fun x => negb (opt_is_none (spec_get_depth m x))) to_pop).
+  assert (HP : forall x, In x P <-> In x to_pop /\ In x m).
+  { intros x. unfold P. rewrite filter_In, present_iff. tauto. }
+  assert (NP : NoDup P) by (apply NoDup_filter; exact Hnt).
+  assert (Eq : forall y, In y high -> (~ In y P <-> ~ In y to_pop)).
+  { intros y Hy. rewrite HP. split; intros H H'; apply H; [split; [exact H'|unfold m; apply in_or_app; right; exact Hy]|tauto]. }
+  destruct P as [|p0 pr] eqn:EP.
+  - exists [], high, s. rewrite app_nil_r. split; [reflexivity|]. split; [reflexivity|]. split; [exact Hi|]. split; [auto|].
+    split; [exact Hnd|]. split.
+    + intros y. split; [intros Hy; split; [exact Hy|apply (Eq y Hy); intros []]|tauto].
+    + intros mm. exists mm. split; [reflexivity|auto].
+  - destruct (popmany_body_spec (p0 :: pr) a low high s Hi Hnd NP) as [new [high' [s' [E [D [I [L [N [In' R]]]]]]]]].
+    { discriminate. }
+    { intros x Hx. apply HP in Hx. destruct Hx. apply Hin; assumption. }
+    exists new, high', s'. split; [exact E|]. split; [exact D|]. split; [exact I|]. split; [exact L|]. split; [exact N|].
+    split; [|exact R]. intros y. rewrite In'. split; intros [H1 H2]; (split; [exact H1|]); apply (Eq y H1); exact H2.
+Qed.
